@@ -15,6 +15,10 @@ prop_mod!(c06, "c06.rs");
 prop_mod!(c08, "c08.rs");
 #[cfg(descriptive_gate)]
 prop_mod!(c12, "c12.rs");
+#[cfg(descriptive_gate)]
+prop_mod!(c18, "c18.rs");
+#[cfg(descriptive_gate)]
+prop_mod!(c20, "c20.rs");
 
 fn dispatch(env: &common::Env) -> (&'static str, Vec<common::Sub>) {
     match env.prop.as_str() {
@@ -33,6 +37,10 @@ fn dispatch(env: &common::Env) -> (&'static str, Vec<common::Sub>) {
         "C08" => (c08::LEVEL, c08::subs(env)),
         #[cfg(descriptive_gate)]
         "C12" => (c12::LEVEL, c12::subs(env)),
+        #[cfg(descriptive_gate)]
+        "C18" => (c18::LEVEL, c18::subs(env)),
+        #[cfg(descriptive_gate)]
+        "C20" => (c20::LEVEL, c20::subs(env)),
         other => panic!("no harness for property {other} in this build"),
     }
 }
